@@ -409,16 +409,32 @@ def main():
             else:
                 violations_out.append((prop, rp, 'configuration %s does not build' % c['id']))
 
+    # Phase A (two configurations at a time, so that stragglers of one overlap with the other): determinism-gate executions and
+    # the main batch.  Phase B (serial, below): aggregation, violation gating, shrinking, classification.
+    def phase_a(c):
+        binp = built[c['id']][0]
+        if binp is None:
+            return None
+        t_ = time.time()
+        gate_n = E['gate_n'][args.tier] // max(1, len(cfgs)) + 20
+        gargs = ['--gen', '--prop', prop, '--tier', args.tier, '--seed', str(args.seed), '--no-sweep', '--count', str(gate_n), '--hashes']
+        with cf.ThreadPoolExecutor(max_workers=4) as ex:
+            g = list(ex.map(lambda a: run_worker(binp, a, 600), [gargs] + [gargs + ['--start', str(s_), '--stride', '3'] for s_ in range(3)]))
+        base = ['--gen', '--prop', prop, '--tier', args.tier, '--seed', str(args.seed), '--count', str(nruns_cfg), '--stride', str(NCPU), '--samples', '2']
+        xenv = {'VERIF_EXHAUSTIVE': '1'} if (args.tier == 'thorough' and engine == 'fenv' and prop == 'C11' and any(fnmatch.fnmatchcase(c['id'], p_) for p_ in EXHAUSTIVE_CFGS)) else None
+        with cf.ThreadPoolExecutor(max_workers=NCPU) as ex:
+            res = list(ex.map(lambda s_: run_worker(binp, base + ['--start', str(s_)], 14400, xenv), range(NCPU)))
+        return {'ga': g[0], 'gb': g[1:], 'gate_n': gate_n, 'base': base, 'xenv': xenv, 'res': res, 'wall': time.time() - t_}
+
+    with cf.ThreadPoolExecutor(max_workers=int(os.environ.get('VERIF_CFG_PAR', '2'))) as cex:
+        phase = dict(zip([c['id'] for c in cfgs], cex.map(phase_a, cfgs)))
+
     for c in cfgs:
         binp, cmds, log = built[c['id']]
         if binp is None:
             continue
         tc = time.time()
-        # ---- determinism gate: same runs, different worker processes, two strides
-        gate_n = E['gate_n'][args.tier] // max(1, len(cfgs)) + 20
-        ga = run_worker(binp, ['--gen', '--prop', prop, '--tier', args.tier, '--seed', str(args.seed), '--no-sweep', '--count', str(gate_n), '--hashes'], 600)
-        gb = [run_worker(binp, ['--gen', '--prop', prop, '--tier', args.tier, '--seed', str(args.seed), '--no-sweep', '--count', str(gate_n), '--hashes',
-                                '--start', str(s), '--stride', '3'], 600) for s in range(3)]
+        ph = phase[c['id']]; ga, gb, gate_n, base, xenv, res = ph['ga'], ph['gb'], ph['gate_n'], ph['base'], ph['xenv'], ph['res']
         dead = [g for g in [ga] + gb if not parse_lines(g[1]).get('Z')]
         if dead:
             harness_problems.append('gate worker of %s died (rc=%s): stdout tail %s stderr tail %s' % (c['id'], dead[0][0], dead[0][1][-300:], dead[0][2][-800:]))
@@ -442,12 +458,6 @@ def main():
             agg['gate_pairs'] += gate_n
         n_viol_before = len(violations_out)
 
-        # ---- main batch: NCPU workers, strided
-        base = ['--gen', '--prop', prop, '--tier', args.tier, '--seed', str(args.seed), '--count', str(nruns_cfg), '--stride', str(NCPU), '--samples', '2']
-        xenv = None
-        with cf.ThreadPoolExecutor(max_workers=NCPU) as ex:
-            xenv = {'VERIF_EXHAUSTIVE': '1'} if (args.tier == 'thorough' and engine == 'fenv' and prop == 'C11' and any(fnmatch.fnmatchcase(c['id'], p_) for p_ in EXHAUSTIVE_CFGS)) else None
-            res = list(ex.map(lambda s: run_worker(binp, base + ['--start', str(s)], 14400, xenv), range(NCPU)))
         cfg_v = {}
         for widx, (rc, out, err) in enumerate(res):
             recs = parse_lines(out)
@@ -527,7 +537,7 @@ def main():
                 print('[check] %s: runs depend on the preceding runs of their worker (cross-run state); explained by the confirmed violation(s) above' % c['id'])
             else:
                 harness_problems.append(gate_problem)
-        print('[check] %s: %.1fs, %d distinct violating signatures for %s' % (c['id'], time.time() - tc, len(mine), prop)); sys.stdout.flush()
+        print('[check] %s: %.1fs, %d distinct violating signatures for %s' % (c['id'], ph['wall'] + time.time() - tc, len(mine), prop)); sys.stdout.flush()
 
     # ---- required probes (a vacuous batch is not a pass)
     for p_ in E['required_probes'].get(prop, []):
